@@ -422,6 +422,24 @@ func body(sc scenario) func(x *gosim.Exec) {
 					return
 				}
 			}
+			// storing again the very version that was in the cache before the interruption (same bytes, hence same hash as
+			// a side-car hash file that may have survived the interruption) must make that version fetchable
+			if sc.Fault != "" && sc.Initial >= 0 {
+				if err := cache.Store(x.Ctx(), key, "/src/final/v0"); err == nil {
+					time.Sleep(time.Millisecond)
+					if err := cache.Fetch(x.Ctx(), key, "/dest/judge/0"); err != nil {
+						x.Violate("acknowledged-store-not-fetchable:restore-of-previous-version:cache="+sc.Cache+w.faultSuffix(), "after the interrupted Store(v1), Store(v0) reported success but Fetch fails: %v", err)
+						return
+					}
+					if got, what := identify(backend, "/dest/judge/0"); got != 0 {
+						x.Violate("fetch-after-restore-wrong-version:cache="+sc.Cache+w.faultSuffix(), "after Store(v0) the Fetch installed v%d %s", got, what)
+						return
+					}
+				} else {
+					x.Note("judge: Store(v0) after recovery failed: %v", err)
+				}
+				time.Sleep(time.Millisecond)
+			}
 			// not wedged: a newer version can be stored and fetched
 			if sc.Fault != "" {
 				if err := cache.Store(x.Ctx(), key, "/src/final/v2"); err != nil {
